@@ -176,6 +176,7 @@ def main(modname):
         for k, v in r.get('reached', {}).items():
             reached[k] = reached.get(k, 0) + v
         entered.update(r.get('entered', []))
+        entered.update(r.get('entered_extra', []))
         if not r.get('exhausted', True):
             not_exhausted.append(r['case'])
         if len(samples) < 5:
